@@ -47,6 +47,15 @@ func raiseClass(kind string) string {
 
 // c09Chain builds: main -> 层1 -> 层2 -> … -> 层d (raises). A handler for class hc sits at level h
 // (0 = main program). Every level displays marks before/after its call and its parameter.
+// c09Opts: optional second stage - the handler at level h itself raises hRaise (a raise kind) and a
+// handler at level outerH < h (class 异常, with 输出) deals with that second exception.
+type c09Opts struct {
+	hRaise string
+	outerH int
+}
+
+var c09Extra *c09Opts
+
 func c09Chain(d int, raise string, h int, hc string, handlerReturns bool, inLoop bool, asMethod bool) *zr.Program {
 	body := []zr.Stmt{}
 	custom := zr.ClassDef{Name: "自定错", Props: []zr.PropDef{{Name: "内容", Val: zr.S("")}, {Name: "码", Val: intLit(0)}}}
@@ -54,6 +63,13 @@ func c09Chain(d int, raise string, h int, hc string, handlerReturns bool, inLoop
 	body = append(body, custom)
 	holder := zr.ClassDef{Name: "持有", Props: []zr.PropDef{{Name: "记", Val: intLit(100)}}}
 	handler := func(level int) []zr.Catch {
+		if c09Extra != nil && level == c09Extra.outerH && level != h {
+			cls := "异常"
+			if c09Extra.hRaise == "throw-custom" {
+				cls = "自定错"
+			}
+			return []zr.Catch{{Class: cls, Body: []zr.Stmt{zr.Show(zr.S(fmt.Sprintf("outer-handler@%d", level))), zr.Return{E: intLit(-50 - level)}}}}
+		}
 		if level != h {
 			return nil
 		}
@@ -66,6 +82,9 @@ func c09Chain(d int, raise string, h int, hc string, handlerReturns bool, inLoop
 		}
 		if level > 0 {
 			hb = append(hb, zr.Show(zr.S("param-in-handler"), zr.N(fmt.Sprintf("参%d", level))))
+		}
+		if c09Extra != nil && c09Extra.hRaise != "" {
+			hb = append(hb, zr.Show(zr.S("handler-raises")), c09RaiseStmt(c09Extra.hRaise, "h"), zr.Show(zr.S("after-handler-raise")))
 		}
 		if handlerReturns {
 			hb = append(hb, zr.Return{E: intLit(-level - 1)})
@@ -134,7 +153,7 @@ func c09Chain(d int, raise string, h int, hc string, handlerReturns bool, inLoop
 }
 
 func checkC09(c *Ctx) {
-	c.rule = "programs: (a) fixed families: call chains of depth 0..4 whose innermost body raises one of 10 raise kinds (抛出 of 异常 / custom type, ÷0, index, key, undefined name, type error, failing 转换数值, missing method, arity) optionally inside a loop, with a matching or non-matching handler (preceded by a wrong-class handler) at every level 0..depth, with/without 输出 in the handler, function or type-method callers; marks before/after every call, follow-up probes of locals, parameters, 其 and a further call after the handler ran; variants probing callee locals that must be undefined; (b) random programs with 抛出, runtime faults, handlers on methods and program. Oracle: reference evaluator; plus quiescent invariants after every successful run: call stack empty and every module scope at depth 0 (hooks H3/H4). distinct_nontrivial = distinct (family parameters / feature set, outcome kind)"
+	c.rule = "programs: (a) fixed families: call chains of depth 0..4 whose innermost body raises one of 10 raise kinds (抛出 of 异常 / custom type, ÷0, index, key, undefined name, type error, failing 转换数值, missing method, arity) optionally inside a loop, with a matching or non-matching handler (preceded by a wrong-class handler) at every level 0..depth, with/without 输出 in the handler, function or type-method callers; marks before/after every call, follow-up probes of locals, parameters, 其 and a further call after the handler ran; variants probing callee locals that must be undefined; nested families where the handler itself raises and a handler further out takes over; (b) random programs with 抛出, runtime faults, handlers on methods and program. Oracle: reference evaluator; plus quiescent invariants after every successful run: call stack empty and every module scope at depth 0 (hooks H3/H4). distinct_nontrivial = distinct (family parameters / feature set, outcome kind)"
 	c.assumptions = []string{"message text of runtime faults is not compared (U7)", "handlers only use 其, parameters and literals (U1)"}
 	rng := c.Rand("c09")
 	var progs []*zr.Program
@@ -157,6 +176,29 @@ func checkC09(c *Ctx) {
 								}
 								progs = append(progs, c09Chain(d, raise, h, hc, hr, loop, asMethod))
 								shapes = append(shapes, fmt.Sprintf("chain/d%d/%s/h%d/%s/%v/%v/%v", d, raise, h, hc, hr, loop, asMethod))
+							}
+						}
+					}
+				}
+			}
+		}
+	}
+	// handlers that raise themselves, dealt with by a handler further out; the caller of that
+	// outer body must find its 其, locals and call depth untouched
+	for d := 2; d <= c.Pick(3, 4); d++ {
+		for _, raise := range []string{"throw", "div0", "throw-custom", "undefined"} {
+			for _, hRaise := range []string{"throw", "div0", "throw-custom", "index"} {
+				for h := 1; h <= d; h++ {
+					for outer := 0; outer < h; outer++ {
+						for _, asMethod := range []bool{false, true} {
+							for _, loop := range []bool{false, true} {
+								if loop && c.Quick() && (d+h+outer)%2 == 0 {
+									continue
+								}
+								c09Extra = &c09Opts{hRaise: hRaise, outerH: outer}
+								progs = append(progs, c09Chain(d, raise, h, raiseClass(raise), false, loop, asMethod))
+								shapes = append(shapes, fmt.Sprintf("nested/d%d/%s/h%d/then-%s/outer%d/%v/%v", d, raise, h, hRaise, outer, asMethod, loop))
+								c09Extra = nil
 							}
 						}
 					}
